@@ -277,6 +277,14 @@ impl<L: Language, N: Analysis<L>> EGraph<L, N> {
                 #[allow(unused)]
                 let (a, b, proof) = self.pc_congruence(&pc1, &pc2);
 
+                // The variant exchanges a slot of the class with a redundant slot of the e-node:
+                // this is not a symmetry but a proof that the slot is redundant.
+                if a.slots() != b.slots() {
+                    self.union_internal(&a, &b, proof);
+                    self.determine_self_symmetries(src_id);
+                    return;
+                }
+
                 // or is it the opposite direction? (flip a with b)
                 let perm = a.m.compose(&b.m.inverse());
 
